@@ -2662,7 +2662,10 @@ bn_sqrt1(bn_p bn) {
 	BN_RET_ON_ERR(bn_init(&res, bits));
 	BN_RET_ON_ERR(bn_init(&bit, bits));
 	BN_RET_ON_ERR(bn_init(&tmp, bits));
-	BN_RET_ON_ERR(bn_assign_2exp(&bit, (bits - bn_clz(bn))));
+	if (0 != bn_is_zero(bn))
+		return (0);
+	/* Start with highest power of FOUR <= bn: exponent must be even. */
+	BN_RET_ON_ERR(bn_assign_2exp(&bit, ((bits - bn_clz(bn) - 1) & ~((size_t)1))));
 	while (bn_cmp(&bit, bn) > 0) {
 		bn_r_shift(&bit, 2);
 	}
